@@ -361,3 +361,44 @@ def ax_le_value_bytes(b: bytes) -> bool:
     """every 4- or 8-byte string is the little-endian form of its value (bytes are 0..255)"""
     return (implies(len(b) == 8, le_bytes8(le_value(b)) == b and 0 <= le_value(b) < 18446744073709551616)
             and implies(len(b) == 4, le_bytes4(le_value(b)) == b and 0 <= le_value(b) < 4294967296))
+
+
+# ------------------------------------------------------------------- sets etc.
+@opaque
+def set_diff(a: set, b: set) -> set:
+    return a - b
+
+
+@opaque
+def set_union(a: set, b: set) -> set:
+    return a | b
+
+
+@opaque
+def set_inter(a: set, b: set) -> set:
+    return a & b
+
+
+@opaque
+def dedup(xs: list) -> set:
+    return set(xs)
+
+
+@opaque
+def str_join(sep: str, parts: list) -> str:
+    return sep.join(parts)
+
+
+@spec
+def FLOATED(x: object) -> object:
+    """float(x) as the record writer applies it to float/double fields, so that JSON
+    defaults such as "NaN" work; values float() rejects are left alone"""
+    if isinstance(x, float):
+        return x
+    if isinstance(x, bool):
+        return f_of_int(1 if x else 0)
+    if isinstance(x, int):
+        return f_of_int(x)
+    if isinstance(x, str) and f_str_parses(x):
+        return f_of_str(x)
+    return x
